@@ -2649,8 +2649,63 @@ def r12_sinks(ctx):
     for fi, c in dumps:
         by_factory.setdefault(factory_of(fi).name, []).append((fi, c))
 
-    def kwset(c):
-        return {k.arg: norm(k.value) for k in c.keywords if k.arg != 'Dumper'}
+    def kwset(c, fi=None):
+        """the options a yaml.dump site passes; options handed over as `**d`, with d a local dict filled by `if C: d[k] = v`
+        statements, are written out as the conditional value they amount to (absent = PyYAML's default for that option)"""
+        out = {}
+        for k in c.keywords:
+            if k.arg == 'Dumper':
+                continue
+            if k.arg is not None:
+                out[k.arg] = norm(k.value)
+                continue
+            eff = _star_options(fi, c, k.value) if fi is not None else None
+            if eff is None:
+                out[None] = norm(k.value)
+            else:
+                out.update(eff)
+        return out
+
+    def _star_options(fi, c, e):
+        if not isinstance(e, ast.Name):
+            return None
+        f_ = fn_of(fi)
+        name = e.id
+        inits = [n for n in f_.walk() if isinstance(n, ast.Assign) and len(n.targets) == 1 and norm(n.targets[0]) == name]
+        if len(inits) != 1 or norm(inits[0].value) not in ('dict()', '{}'):
+            return None
+        defaults = _pyyaml_dump_defaults(P)
+        out = {}
+        for n in f_.walk():
+            if isinstance(n, ast.Name) and n.id == name and n is not e and n is not inits[0].targets[0]:
+                par = parent(n)
+                st = parent(par) if par is not None else None
+                if not (isinstance(par, ast.Subscript) and isinstance(par.ctx, ast.Store) and isinstance(par.slice, ast.Constant)
+                        and isinstance(st, ast.Assign) and len(st.targets) == 1 and st.targets[0] is par):
+                    return None
+                key = par.slice.value
+                gs = [(g, p) for g, p in f_.guards(st)]
+                own = [(g, p) for g, p in gs if (g, p) not in [(a, b) for a, b in f_.guards(inits[0])]]
+                if len(own) > 1 or key in out or key not in defaults:
+                    return None
+                val = st.value
+                if not own:
+                    out[key] = norm(val)
+                    continue
+                g, p = own[0]
+                t, pol = canon_atom(g, p)
+                dflt = defaults[key]
+                # `if x is not None: d[k] = x`  (default None)  is  k=x
+                if pol is False and t == '%s is None' % norm(val) and dflt == 'None':
+                    out[key] = norm(val)
+                # `if not b: d[k] = True` (default None / False: falsy)  is  k=not b   as far as truth goes
+                elif isinstance(val, ast.Constant) and val.value is True and dflt in ('None', 'False'):
+                    out[key] = ('not %s' % t) if not pol else t
+                    if out[key].startswith('not not '):
+                        out[key] = out[key][8:]
+                else:
+                    return None
+        return out
 
     r1 = ctx.rule('R12.1', 'YAML sinks: the string variant and both file/stream branches call yaml.dump with the same options',
                   floor=2)
@@ -2665,7 +2720,7 @@ def r12_sinks(ctx):
                            'ensure_ascii>', floor=2)
     jsites = by_factory.get('dumps_json_function', []) + by_factory.get('dump_json_function', [])
     for fi, c in jsites:
-        kw = kwset(c)
+        kw = kwset(c, fi)
         ok = kw == {'indent': 'indent', 'allow_unicode': 'not ensure_ascii'} and 'indent' in fi.params and 'ensure_ascii' in fi.params
         r2.check(ok, '%s %s: indent=indent, allow_unicode=not ensure_ascii' % (fi.qual, _site_tag(fi, c)),
                  '%s:yaml.dump:json-options:%s' % (fi.key, _site_tag(fi, c)), fi.loc(c),
@@ -2683,6 +2738,11 @@ def r12_sinks(ctx):
         fmt = None
         if ud:
             v = ud[0].class_attrs.get('output_format')
+            # ... or set on the class right after it was made
+            for n_ in f.walk():
+                if isinstance(n_, ast.Assign) and len(n_.targets) == 1 and norm(n_.targets[0]) == 'UserDumper.output_format' \
+                        and not f.guards(n_) and not enclosing_loops(n_, f.node):
+                    v = n_.value
             fmt = const_str(v) if v is not None else 'yaml'
         add = [norm(c) for c in f.calls('add_to_dumper')]
         regs = sorted({(short_class(fi.module, c.args[0]), norm(c.args[1])) for c in f.calls('add_representer') if len(c.args) == 2})
@@ -2806,6 +2866,20 @@ def short_class(m, e: ast.AST) -> str:
     head, _, rest = dn.partition('.')
     full = m.imports.get(head, head) + ('.' + rest if rest else '')
     return full.rsplit('.', 1)[-1]
+
+
+def _pyyaml_dump_defaults(P: Program) -> Dict[str, str]:
+    """defaults of the keyword options of yaml.dump_all (what an option that is not passed amounts to)"""
+    fi = P.func('yaml:dump_all')
+    a = fi.node.args
+    pos = a.posonlyargs + a.args
+    out = {}
+    for p_, d in zip(pos[len(pos) - len(a.defaults):], a.defaults):
+        out[p_.arg] = norm(d)
+    for p_, d in zip(a.kwonlyargs, a.kw_defaults):
+        if d is not None:
+            out[p_.arg] = norm(d)
+    return out
 
 
 def module_representers(P: Program) -> List[Tuple[str, str]]:
